@@ -137,4 +137,10 @@ def W():  # revert fix aceb285 (trace of an error inside the trace without argum
 def X2():  # revert fix 1ced780 in effect: regmatch no longer stops when the steps are used up
     sub("lib/efuns/regexp.c", "      if (--regsteps < 0)\n        return (0);", "      --regsteps;")
 
+def Y():  # revert fix 91b4476 (trace of a frame that is not built yet)
+    s = open(R + "src/simulate.c").read()
+    g = "  if (num_arg != -1 && fp + num_arg + num_local - 1 > sp)\n    num_arg = -1;\n"
+    assert s.count(g) == 2
+    open(R + "src/simulate.c", "w").write(s.replace(g, ""))
+
 globals()[sys.argv[1]]()
